@@ -162,6 +162,15 @@ const PAIRS: &[(&str, &str, &str, &str)] = &[
     ("bare-number-as-angle", "Angle field access", "let _r: f32 = degs(1.0).0;", "let _r: f32 = degs(1.0).to_rads();"),
     ("bare-number-as-angle", "Angle + f32", "let _r = degs(90.0) + 1.0;", "let _r = degs(90.0) + degs(1.0);"),
     ("bare-number-as-angle", "Angle - f32", "let _r = turns(0.5) - 0.25;", "let _r = turns(0.5) - turns(0.25);"),
+    ("bare-number-as-angle", "Angle % f32", "let _r = degs(370.0) % 360.0;", "let _r = degs(370.0) % degs(360.0);"),
+    ("bare-number-as-angle", "f32 + Angle", "let _r = 1.0 + degs(90.0);", "let _r = rads(1.0) + degs(90.0);"),
+    ("bare-number-as-angle", "f32 - Angle", "let _r = 1.0 - degs(90.0);", "let _r = rads(1.0) - degs(90.0);"),
+    ("bare-number-as-angle", "f32 % Angle", "let _r = 370.0 % degs(360.0);", "let _r = degs(370.0) % degs(360.0);"),
+    ("bare-number-as-angle", "Angle * Angle", "let _r = degs(2.0) * degs(2.0);", "let _r = degs(2.0) * 2.0;"),
+    ("bare-number-as-angle", "Angle / Angle", "let _r: Angle = degs(2.0) / degs(2.0);", "let _r: Angle = degs(2.0) / 2.0;"),
+    ("bare-number-as-angle", "Angle equal to f32", "let _r = degs(1.0) == 1.0;", "let _r = degs(1.0) == rads(1.0);"),
+    ("bare-number-as-angle", "Affine::add on Angle with f32", "let _r = Affine::add(&degs(1.0), &1.0);", "let _r = Affine::add(&degs(1.0), &rads(1.0));"),
+    ("bare-number-as-angle", "Affine::sub on Angle with f32", "let _r = Affine::sub(&degs(1.0), &1.0);", "let _r = Affine::sub(&degs(1.0), &rads(1.0));"),
     ("bare-number-as-angle", "Angle::wrap", "let _r = degs(400.0).wrap(0.0, 360.0);", "let _r = degs(400.0).wrap(degs(0.0), degs(360.0));"),
     ("bare-number-as-angle", "Angle::clamp", "let _r = degs(10.0).clamp(0.0, 1.0);", "let _r = degs(10.0).clamp(degs(0.0), degs(1.0));"),
     ("bare-number-as-angle", "Angle::min", "let _r = degs(10.0).min(1.0);", "let _r = degs(10.0).min(rads(1.0));"),
